@@ -140,6 +140,31 @@ static void up_push(ABT_pool pool, ABT_unit unit, ABT_pool_context ctx)
     q->tail = u;
     q->n++;
 }
+static long up_many_calls;
+static void up_push_many(ABT_pool pool, const ABT_unit *units, size_t n, ABT_pool_context ctx)
+{
+    up_many_calls++;
+    for (size_t i = 0; i < n; i++)
+        up_push(pool, units[i], ctx);
+}
+static void up_pop_many(ABT_pool pool, ABT_thread *threads, size_t max, size_t *num, ABT_pool_context ctx)
+{
+    size_t k = 0;
+    up_many_calls++;
+    while (k < max) {
+        ABT_thread t = up_pop(pool, ctx);
+        if (t == ABT_THREAD_NULL)
+            break;
+        threads[k++] = t;
+    }
+    *num = k;
+}
+static ABT_thread up_pop_wait(ABT_pool pool, double secs, ABT_pool_context ctx)
+{
+    /* "waits up to secs": returning at once is within the contract, and nothing here may block */
+    (void)secs;
+    return up_pop(pool, ctx);
+}
 static ABT_pool mk_user_pool(void)
 {
     ABT_pool_user_def def;
@@ -148,6 +173,13 @@ static ABT_pool mk_user_pool(void)
     ABT_bool automatic = ABT_TRUE;
     ABT_OK(ABT_pool_user_def_create(up_create_unit, up_free_unit, up_is_empty, up_pop, up_push, &def));
     ABT_OK(ABT_pool_user_def_set_get_size(def, up_get_size));
+    /* optional operations: present in some runs (the runtime falls back to push/pop otherwise) */
+    if (plan_bool()) {
+        ABT_OK(ABT_pool_user_def_set_push_many(def, up_push_many));
+        ABT_OK(ABT_pool_user_def_set_pop_many(def, up_pop_many));
+    }
+    if (plan_bool())
+        ABT_OK(ABT_pool_user_def_set_pop_wait(def, up_pop_wait));
     ABT_OK(ABT_pool_config_create(&cfg));
     ABT_OK(ABT_pool_config_set(cfg, ABT_pool_config_automatic.key, ABT_pool_config_automatic.type, &automatic));
     ABT_OK(ABT_pool_create(def, cfg, &p));
